@@ -73,6 +73,12 @@ Example verdict_le_boundary : zholds (vec_args Z ex [2; 2; 3]%Z) (ALe (NPrior 0)
                               zholds (vec_args Z ex [2; 2; 3]%Z) (ALt (NPrior 0) (NPrior 1)) = Ok false.
 Proof. vm_compute. auto. Qed.
 
+(* operand names are names only *)
+Example names_irrelevant_instance :
+  erase_a Z (ALt (NBin OAdd "centre" "left" (NPrior 0) (NPrior 1)) (NConst 5%Z)) =
+  erase_a Z (ALt (NBin OAdd "x" "y" (NPrior 0) (NPrior 1)) (NConst 5%Z)).
+Proof. reflexivity. Qed.
+
 (* operators *)
 Example reflected_constant_left : cmp_nodes Z Z.ltb Z.leb CLt (NConst 5%Z) (NPrior 0) = Some (ALt (NConst 5%Z) (NPrior 0)).
 Proof. reflexivity. Qed.
